@@ -164,9 +164,12 @@ def seq_binop(I, op, a, b):
     if isinstance(a, SymSeq):
         if not _scalar(b):
             raise Unsupported("array op non-scalar")
-        return SymSeq(a.length,
-                      lambda i: scalar_binop(I, ty, a.get(i), b, True),
-                      _res_elem(ty, a.elem, _elem_of(b)))
+        out = SymSeq(a.length,
+                     lambda i: scalar_binop(I, ty, a.get(i), b, True),
+                     _res_elem(ty, a.elem, _elem_of(b)))
+        if ty is ast.Sub and a.elem == "Real":
+            out.sub_of = a         # (see seq_compare: IEEE fact)
+        return out
     if not _scalar(a):
         raise Unsupported("array op non-scalar")
     return SymSeq(b.length, lambda i: scalar_binop(I, ty, a, b.get(i), True),
@@ -309,6 +312,20 @@ def seq_compare(I, ty, a, b):
             return z3.Not(bz(veq(x, y)))
         p, q = unify(x, y)
         return _CMP[ty](p, q)
+    if isinstance(a, SymSeq) and ty in (ast.Gt, ast.GtE) and \
+            a.__dict__.get("sub_of") is not None and not I.spec:
+        # IEEE fact the real-number model lacks: for floats p, q, u the test
+        # (p - q) > u is False whenever p is -inf or NaN (then p - q is -inf
+        # or NaN, and no comparison with NaN is True).  Acceptance masks of
+        # the form (log_w - max) > log_u rely on it to keep zero-weight
+        # points out.
+        pseq = a.sub_of
+
+        def fact(k):
+            lhs = cmp1(a.get(k), b.get(k) if isinstance(b, SymSeq) else b)
+            return z3.Implies(lhs, z3.And(to_real(pseq.get(k)) != -INF,
+                                          to_real(pseq.get(k)) != NANV))
+        I.assume(forall_idx(I, a.length, fact))
     if isinstance(a, SymSeq) and isinstance(b, SymSeq):
         I.oblige(f"broadcast_len@{I.cur_line}",
                  to_int(a.length) == to_int(b.length), "safety")
@@ -4065,3 +4082,17 @@ def _spec_field_names(I, arr):
     """the field names of a structured array, in dtype order (numpy assigns
     structured values to structured slots BY POSITION, so the order matters)"""
     return list(_val(arr).fields.keys())
+
+
+@lib("numpy.nan_to_num")
+def _np_nan_to_num(I, x, **kw):
+    """NaN -> 0, -inf / +inf -> very large finite numbers (an ordinary array
+    again: nothing marks it as the result of a subtraction)"""
+    v = _val(x)
+    big = INF - 1
+
+    def g(i):
+        t = to_real(v.get(i))
+        return z3.If(t == NANV, z3.RealVal(0),
+                     z3.If(t == -INF, -big, z3.If(t == INF, big, t)))
+    return Cell("arr", SymSeq(v.length, g, "Real"))
